@@ -233,6 +233,24 @@ def r4(F, R):
                     fconsts += [const_str(o) for o in A.rvalue_operands(st["rv"]) if const_str(o) is not None]
         need = {"__cucumber__scenario", "__unknown", "__"}
         R.check(need <= set(consts), "writer-separators", w, "splits on END / NO_SCENARIO_ID / BEFORE_SCENARIO_ID", f"CollectorWriter::write uses separators {sorted(set(consts) & need)}")
+        # the id / no-id markers are APPENDED to the formatted message (format_event writes them last), and the message
+        # text itself may contain them: they must be searched for from the END of the record
+        FROM_END = {"rsplit_once", "rfind", "rsplitn", "rsplit", "strip_suffix", "ends_with", "rsplit_terminator", "rmatch_indices", "rmatches"}
+        FROM_START = {"split_once", "find", "splitn", "split", "strip_prefix", "starts_with", "match_indices", "matches", "split_inclusive"}
+        n_sep = 0
+        for s2, t2 in w.calls():
+            f2 = op_fn(t2["func"])
+            if not f2 or not re.search(r"(^|::)str::", f2["path"]) and "str" not in f2.get("self", ""):
+                continue
+            meth = f2["path"].rsplit("::", 1)[-1]
+            pats = [const_str(a) for a in t2["args"][1:] if const_str(a) is not None] + \
+                   [named[a["text"]] for a in t2["args"][1:] if a.get("k") == "const" and a.get("text") in named]
+            for pat in pats:
+                if pat in ("__unknown", "__") and (meth in FROM_END or meth in FROM_START):
+                    n_sep += 1
+                    R.check(meth in FROM_END, f"writer-marker-from-end/{'id' if pat == '__' else 'no-id'}", s2, f"{meth}({pat!r}) searches from the end",
+                            f"the appended marker {pat!r} is searched with `{meth}` (from the start): a log text containing {pat!r} is split at the wrong place and the record is dropped or mis-attributed")
+        R.check(n_sep >= 2, "writer-marker-sites", w, "", f"{n_sep} marker searches found in CollectorWriter::write")
         sends = [(s, t) for s, t in roles.sends(F, [w])]
         vs = []
         for s, t in sends:
@@ -241,7 +259,7 @@ def r4(F, R):
                   [rv["variant"] for site, rv in sl.aggs if rv.get("adt") == "std::option::Option"]
             vs.append(sorted(set(opt)))
         R.check(sorted(map(tuple, vs)) == [("None",), ("Some",)], "writer-attributes-id", w, "(None, msg) for unknown, (Some(id), msg) for tagged", f"CollectorWriter sends {vs}")
-    R.floor(5)
+    R.floor(8)
 
 
 def _agg_local(w, rv):
